@@ -17,6 +17,8 @@ import (
 	"sync/atomic"
 	"time"
 
+	"github.com/gotd/log"
+
 	"github.com/gotd/td/bin"
 	"github.com/gotd/td/pool"
 )
@@ -139,6 +141,52 @@ type Run struct {
 	leaked     map[int64]bool
 }
 
+// yieldLogger is the pool's logger: the debug line that acquire writes between releasing the pool
+// mutex after the waiter registration and entering its select is used as a scheduling point
+// ("acq.registered"), so that a connection death can be scheduled exactly there without a call site in
+// the source.  (Only lines known to be written outside the pool mutex may yield.)
+type yieldLogger struct{ r *Run }
+
+func (yieldLogger) Enabled(context.Context, log.Level) bool { return true }
+
+func (l yieldLogger) Log(ctx context.Context, _ log.Level, msg string, attrs ...log.Attr) {
+	if msg != "Waiting for free connect" {
+		return
+	}
+	var key int64 = -1
+	for _, a := range attrs {
+		if a.Key == "request_id" {
+			key = a.Value.Int64()
+		}
+	}
+	if key < 0 {
+		return
+	}
+	l.r.logPoint(key)
+}
+
+// logPoint parks the calling goroutine (if it is a managed caller) at the pseudo point acq.registered.
+func (r *Run) logPoint(key int64) {
+	id := goid()
+	r.mu.Lock()
+	if r.aborted {
+		r.mu.Unlock()
+		return
+	}
+	g := r.byGoid[id]
+	if g == nil || g.kind != gCaller {
+		r.mu.Unlock()
+		return
+	}
+	g.key = key
+	g.ch = pool.VerifC27WaiterChan(r.dc, key)
+	if g.ch != nil {
+		r.chans[key] = g.ch
+	}
+	r.mu.Unlock()
+	r.yield(g, "acq.registered", nil)
+}
+
 var errRetryable = fmt.Errorf("fake: %w", pool.ErrConnDead)
 var errOther = errors.New("fake: rpc error")
 
@@ -202,7 +250,7 @@ func NewRun(max int64, ncallers int, expectBg bool) *Run {
 		expectBg: expectBg}
 	ctx, cancel := context.WithCancel(context.Background())
 	r.dcCancel = cancel
-	r.dc = pool.NewDC(ctx, 2, r.newConn, pool.DCOptions{MaxOpenConnections: max})
+	r.dc = pool.NewDC(ctx, 2, r.newConn, pool.DCOptions{MaxOpenConnections: max, Logger: yieldLogger{r}})
 	ownersMu.Lock()
 	owners[r.dc] = r
 	owners[pool.VerifC27ReqMap(r.dc)] = r
@@ -373,7 +421,7 @@ func (r *Run) hook(point string, args []any) {
 				r.conns[g.conn-1].pc = args[0]
 			}
 		}
-	case "acq.wait", "acq.registered":
+	case "acq.wait":
 		g.key, _ = pool.VerifC27Key(args[0])
 		g.ch = args[1]
 		r.chans[g.key] = g.ch
